@@ -1629,7 +1629,7 @@ fn main() {
     let args = Args::parse();
     quiet_panics();
     let mut s = Session::new(&args.out);
-    s.rule = "seeded histories of put / put_with_ttl / put_to_layer / get / get_from_layer / promote / remove / clear / batch_get / batch_put / put_with_validation / get_with_validation / stats over 1-3 layers (memory first layer of 1-3 entries, memory or disk below, also disk-first; memory layers with every eviction policy Lru / Fifo / Lfu / Random / Ttl, long or short default TTL; for Lfu / Random the victims are observed with per-layer reads and the entry count and handed to the model, which checks the choice is one the policy allows), extra weight on puts whose TTL ends before the next call, plus the directed family 'layer at capacity still storing an expired, untouched entry; then each call that puts into it' for every policy x capacity 1-3 x first / second layer, all promotion strategies, hooks none/md5/ngdp/noop/failing, 2-5 keys, interleaved with deletion and corruption (bit flip, truncation, foreign bytes) of disk-layer files; every call under a watchdog; evaluations = histories; non-trivial = the history had a read served by a lower layer, a lower-layer write, a promotion, a validation reject, a corruption drop, a short TTL, a put into a layer at capacity that may still store an expired entry, observed victims or a file fault; distinct = canonical request text of the whole history".into();
+    s.rule = "seeded histories of put / put_with_ttl / put_to_layer / get / get_from_layer / promote / remove / clear / batch_get / batch_put / put_with_validation / get_with_validation / stats over 1-3 layers (memory first layer of 1-3 entries, memory or disk below, also disk-first; memory layers with every eviction policy Lru / Fifo / Lfu / Random / Ttl, long or short default TTL; for Lfu / Random the victims are observed with per-layer reads and the entry count and handed to the model, which checks the choice is one the policy allows), extra weight on puts whose TTL ends before the next call, plus the directed family 'layer at capacity still storing an expired, untouched entry; then each call that puts into it' for every policy x capacity 1-3 x first / second layer, all promotion strategies, hooks none/md5/ngdp/noop/failing, 2-5 keys, interleaved with deletion and corruption (bit flip, truncation, extension, foreign bytes) of disk-layer files, values of 0-31 bytes and now and then a generated payload at an MD5 block / padding, 4 KiB or 64 KiB boundary; plus the payload-size family (validation depends on every byte at every length): for payload lengths 0-2049 around every MD5 block / padding boundary and power of two, 2^k and multiples of 4 KiB below 64 KiB (-1, 0, +1), every multiple of 64 KiB up to 256 KiB (-1, 0, +1; thorough: up to 512 KiB and 1 MiB) and random large ones, with MD5 / NGDP hooks over memory+disk, disk+disk and three-layer caches: the valid payload through put_with_validation and get_with_validation from the first layer and from the disk layer, and payloads with one bit flipped in the first / middle / last byte / first byte of the last 64 KiB or MD5 block, truncated or extended by 1 / 64 / 65536 bytes, or empty, offered to put_with_validation, written over the disk file, or put unvalidated into the first layer, then read validated and unvalidated (request stream, K and O); the same scripts under the oracle only (no request lines, the model is not asked) for every multiple of 4 KiB up to 320 KiB (thorough 1 MiB), every multiple of 64 KiB up to 512 KiB (thorough 2 MiB) and every power of two up to 2 MiB (thorough 16 MiB) (-1, 0, +1), random lengths and the 16 MiB read-path switch of the disk layer; every call under a watchdog; evaluations = histories; non-trivial = the history had a read served by a lower layer, a lower-layer write, a promotion, a validation reject, a corruption drop, a short TTL, a put into a layer at capacity that may still store an expired entry, observed victims or a file fault; distinct = canonical request text of the whole history".into();
     let mut rng = Rng::new(args.seed);
 
     if let Some(p) = &args.replay {
